@@ -137,6 +137,22 @@ pub fn cfg_parse(v: &Value) -> NodeCfg {
 }
 
 pub fn replay(v: &Value) -> i32 {
+    if v["collision"] == true {
+        let (res, f) = collision_run(v["v6"].as_bool().unwrap_or(false), v["rng_seed"].as_u64().unwrap_or(1));
+        let node = single::node_addr(v["v6"].as_bool().unwrap_or(false));
+        for d in res.wire.iter().filter(|d| (d.src == node || d.dst == node) && d.sent_ms < 200) {
+            let p = krpc::parse(&d.bytes);
+            println!("  {:>6} ms {} > {} {} tid={}", d.sent_ms, d.src, d.dst, p.canon_key(), hex(&p.tid));
+        }
+        let mut code = 0;
+        for (tag, sig, what) in &f.items {
+            if *tag == "C05" {
+                println!("VIOLATION {sig}: {what}");
+                code = 1;
+            }
+        }
+        return code;
+    }
     let cfg = cfg_parse(&v["cfg"]);
     let seq: Vec<Sym> = v["sequence"]
         .as_array()
@@ -164,9 +180,41 @@ fn sym_json(s: &Sym) -> Value {
     json!(s.iter().map(|(c, cmd)| json!([c, cmd])).collect::<Vec<_>>())
 }
 
+/// The symbol the code suggests: a well-formed query from a contact's address that carries the
+/// transaction id the node currently has outstanding towards that very contact (here: the contact
+/// sends the node's own find_node back, which is a well-formed find_node query).
+pub fn collision_run(v6: bool, rng_seed: u64) -> (sim::RunResult, single::Findings) {
+    let cfg = NodeCfg { v6, read_only: false, table: 3, store: false };
+    let mut b = single::build(&cfg, 0, rng_seed);
+    // contact 0 echoes
+    let echo_addr = single::contact_addr(0, v6);
+    for p in b.peers.iter_mut() {
+        if p.addr() == echo_addr {
+            let mut r = crate::sim::peers::Responder::new(echo_addr, single::contact_id(0), std::sync::Arc::new(vec![]));
+            r.mode = crate::sim::peers::Mode::Echo;
+            *p = Box::new(r);
+        }
+    }
+    b.sc.horizon_ms = 12_000;
+    let res = single::run_built(b);
+    let mut model = single::Model::default();
+    let f = single::check(&res, &cfg, &mut model);
+    (res, f)
+}
+
 pub fn run(tier: Tier) -> Report {
     let mut rep = Report::new("C05", "model_checking", tier);
     let seed = 1 + seed();
+    for v6 in [false, true] {
+        let (res, f) = collision_run(v6, seed);
+        rep.add("transitions", res.wire.len() as u64);
+        rep.add("collision_symbol_queries", f.replies_checked);
+        for (tag, sig, what) in &f.items {
+            if *tag == "C05" {
+                rep.violation(format!("pending-exchange-collision {sig}"), format!("{what} [a contact sends a well-formed query carrying the transaction id the node has outstanding towards it]"), json!({"engine":"E1","check":"C05","collision":true,"v6":v6,"rng_seed":seed}));
+            }
+        }
+    }
     let cfgs = configs();
     let full = full_alphabet();
     let reduced = reduced_alphabet();
